@@ -44,7 +44,7 @@ def step : Step (St Nat × Mon Nat) := fun (s, m) fs impl =>
   match parseOp fs with
   | none => ((s, m), "bad-op", "-")
   | some o =>
-    let r := Unbounded.step s o
+    let r := GrpcModel.Unbounded.step s o
     let mo := match o, r.2 with
       | .recv, .none => "empty"
       | _, out => showOut out
@@ -54,6 +54,6 @@ def step : Step (St Nat × Mon Nat) := fun (s, m) fs impl =>
       let q := Mon.step m o io
       ((r.1, q.1), mo, showVerdict q.2)
 
-def run : IO Unit := Driver.run (Unbounded.init, Mon.init) step
+def run : IO Unit := Driver.run (GrpcModel.Unbounded.init, Mon.init) step
 
 end GrpcModel.Driver.Unbounded
